@@ -34,6 +34,7 @@ def gen_cases(tier, rng):
                 cases.append("xlate%s %s toapp %d %d" % (cfg, path, o, cell))
                 cases.append("xlate%s %s tosbx %d %d" % (cfg, path, own + o if o else 0, cell))
             cases.append("xlate%s ret toapp %d" % (cfg, o))
+            cases.append("xlate%s malloc toapp %d" % (cfg, o))      # the allocator's answer (0 = failed allocation: null)
             cases.append("xlate%s cbarg toapp %d" % (cfg, o))
             cases.append("xlate%s arg tosbx %d" % (cfg, A + o if o else 0))
             cases.append("xlate%s cbret tosbx %d" % (cfg, A + o if o else 0))
